@@ -49,7 +49,7 @@ Section Proofs.
   Proof. unfold upd1. intros H. apply Nat.eqb_neq in H. now rewrite H. Qed.
 
   Lemma abs_wake row w : abs_w (wake_w V row w) = abs_w w.
-  Proof. destruct w as [| |y x tl l ph|y x tl l|y x tl l ph]; cbn; try reflexivity.
+  Proof. destruct w as [| |y x tl l ph|y x tl l|y x tl l t0 tr0|y x tl l ph]; cbn; try reflexivity.
     destruct ph; cbn; try reflexivity. destruct (y =? S row); reflexivity. Qed.
 
   Lemma map_abs_wake row ws : map abs_w (map (wake_w V row) ws) = map abs_w ws.
@@ -67,7 +67,7 @@ Section Proofs.
   (** ** the row a worker is on, and what it knows *)
   Definition row_of (w : dw V) : option nat :=
     match w with
-    | DWait y _ _ _ _ | DCompute y _ _ _ | DSig y _ _ _ _ => Some y
+    | DWait y _ _ _ _ | DCompute y _ _ _ | DHold y _ _ _ _ _ | DSig y _ _ _ _ => Some y
     | _ => None
     end.
 
@@ -77,6 +77,8 @@ Section Proofs.
     match w with
     | DWait y x _ _ ph => 0 < y /\ (passed ph = true -> needed x <= d_done V s (y - 1))
     | DCompute y x _ _ => y = 0 \/ needed x <= d_done V s (y - 1)
+    | DHold y x _ _ t tr => (y = 0 \/ needed x <= d_done V s (y - 1)) /\
+                            t = snd (d_top V s x) /\ tr = (if S x <? mbW then snd (d_top V s (S x)) else v0)
     | DSig y x _ _ _ => d_adone V s y = S x
     | _ => True
     end.
@@ -124,11 +126,15 @@ Section Proofs.
 
   Lemma worker_ok_mono s s' w : done_grows s s' ->
     (forall y x tl l ph, w = DSig y x tl l ph -> d_adone V s' y = d_adone V s y) ->
+    (forall y x tl l t tr, w = DHold y x tl l t tr ->
+        snd (d_top V s' x) = snd (d_top V s x) /\ snd (d_top V s' (S x)) = snd (d_top V s (S x))) ->
     worker_ok s w -> worker_ok s' w.
   Proof.
-    intros Hg Ha Hok. destruct w as [| |y x tl l ph|y x tl l|y x tl l ph]; cbn in *; auto.
+    intros Hg Ha Ht Hok. destruct w as [| |y x tl l ph|y x tl l|y x tl l t0 tr0|y x tl l ph]; cbn in *; auto.
     - destruct Hok as [H0 H1]. split; [exact H0|]. intros Hp. specialize (H1 Hp). specialize (Hg (y - 1)). lia.
     - destruct Hok as [H0|H1]; [now left|right]. specialize (Hg (y - 1)). lia.
+    - destruct Hok as (H0 & H1 & H2). destruct (Ht y x tl l t0 tr0 eq_refl) as [E1 E2]. rewrite E1, E2.
+      split; [|split; assumption]. destruct H0 as [H0|H0]; [now left|right]. specialize (Hg (y - 1)). lia.
     - rewrite (Ha y x tl l ph eq_refl). exact Hok.
   Qed.
 
@@ -194,13 +200,13 @@ Section Proofs.
 
   Lemma wake_ok s row w : worker_ok s w -> worker_ok s (wake_w V row w).
   Proof.
-    destruct w as [| |y x tl l ph|y x tl l|y x tl l ph]; cbn; auto.
+    destruct w as [| |y x tl l ph|y x tl l|y x tl l t0 tr0|y x tl l ph]; cbn; auto.
     destruct ph; cbn; auto. destruct (y =? S row); cbn; auto; try (intros [H0 _]; split; [exact H0|discriminate]).
   Qed.
 
   Lemma wake_row row w : row_of (wake_w V row w) = row_of w.
   Proof.
-    destruct w as [| |y x tl l ph|y x tl l|y x tl l ph]; cbn; auto.
+    destruct w as [| |y x tl l ph|y x tl l|y x tl l t0 tr0|y x tl l ph]; cbn; auto.
     destruct ph; cbn; auto. destruct (y =? S row); reflexivity.
   Qed.
 
@@ -292,7 +298,7 @@ Section Proofs.
     pose proof (p_ok n s HI i w Hw) as Hok.
     assert (Habsw : nth_error (workers V (abs s)) i = Some (abs_w w))
       by (cbn; rewrite nth_error_map, Hw; reflexivity).
-    destruct w as [| |y x tl l ph|y x tl l|y x tl l ph]; try discriminate.
+    destruct w as [| |y x tl l ph|y x tl l|y x tl l t0 tr0|y x tl l ph]; try discriminate.
     - (* DIdle: claim or exit = the L1 step of the same worker *)
       destruct (p_proj n s HI) as (sched & Hrun).
       assert (Hstep : step1 (abs s) (LW i) = Some (abs s')).
@@ -351,22 +357,24 @@ Section Proofs.
         exact (wait_step_passed _ _ _ _ _ _ _ _ _ Hws Hpass).
       + apply (frame_inv n s i (DWait y x tl l ph)); auto. cbn. right.
         exact (wait_step_ret _ _ _ _ _ _ _ _ Hws Hpass).
-    - (* DCompute: the macroblock body = L1's macroblock step *)
+    - (* DCompute: read the contexts of the row above — stutter *)
       inversion Hs; subst s'; clear Hs. cbn in Hok.
+      apply (frame_inv n s i (DCompute y x tl l)); auto. cbn. auto.
+    - (* DHold: compute on the values read earlier and write — L1's macroblock step *)
+      inversion Hs; subst s'; clear Hs. cbn in Hok. destruct Hok as (Hok & Ht0 & Htr0).
       destruct (p_proj n s HI) as (sched & Hrun).
       assert (Hguard : guard V mbW (abs s) y x = true).
       { unfold ConcRowSync.guard. cbn [done ConcDetailed.abs]. destruct Hok as [->|Hnd]; [reflexivity|].
         apply orb_true_iff. right. apply Nat.leb_le. pose proof (p_done_le n s HI (y - 1)). lia. }
       assert (Hstep : step1 (abs s) (LW i) =
           Some (abs (mkD V (d_next V s)
-             (setw V s i (DSig y x (snd (d_top V s x))
-                (f y x tl (snd (d_top V s x)) (if S x <? mbW then snd (d_top V s (S x)) else v0) l) QStore))
+             (setw V s i (DSig y x t0 (f y x tl t0 tr0 l) QStore))
              (d_rec V s) (d_recRow V s) (d_done V s) (upd1 (d_adone V s) y (S x)) (d_nwait V s) (d_mu V s)
-             (upd1 (d_top V s) x (Some y, f y x tl (snd (d_top V s x)) (if S x <? mbW then snd (d_top V s (S x)) else v0) l))
-             (upd2 (d_out V s) y x (Some (f y x tl (snd (d_top V s x)) (if S x <? mbW then snd (d_top V s (S x)) else v0) l)))
+             (upd1 (d_top V s) x (Some y, f y x tl t0 tr0 l))
+             (upd2 (d_out V s) y x (Some (f y x tl t0 tr0 l)))
              (d_tokens V s)))).
       { cbn [ConcRowSync.step]. unfold ConcRowSync.step_worker. rewrite Habsw. cbn [ConcDetailed.abs_w]. rewrite Hguard.
-        unfold ConcDetailed.abs, setw. cbn. rewrite map_set_nth. reflexivity. }
+        unfold ConcDetailed.abs, setw. cbn. rewrite map_set_nth. rewrite <- Ht0, <- Htr0. reflexivity. }
       destruct (i_worker V v0 f mbW mbH n (abs s) HL1 i y x tl l Habsw) as (_ & Hx & Hadone & _).
       cbn [done ConcDetailed.abs] in Hadone.
       assert (Hother : forall j wj, j <> i -> nth_error (d_workers V s) j = Some wj -> row_of wj <> Some y).
@@ -380,18 +388,27 @@ Section Proofs.
         * rewrite set_nth_eq in Hj by exact Hil. inversion Hj; subst wj. cbn. apply upd1_eq.
         * rewrite set_nth_neq in Hj by exact Hne. pose proof (p_ok n s HI j wj Hj) as H0.
           pose proof (Hother j wj ltac:(congruence) Hj) as Hrow.
-          destruct wj as [| |y1 x1 tl1 l1 ph1|y1 x1 tl1 l1|y1 x1 tl1 l1 ph1]; cbn in *; auto.
-          rewrite upd1_neq by congruence. exact H0.
+          destruct wj as [| |y1 x1 tl1 l1 ph1|y1 x1 tl1 l1|y1 x1 tl1 l1 t1 tr1|y1 x1 tl1 l1 ph1]; cbn in *; auto.
+          -- (* another worker holding values it read: the cell written now is none of its cells *)
+             destruct H0 as (Hg1 & Ht1 & Htr1).
+             assert (Habsj : nth_error (workers V (abs s)) j = Some (AtMB y1 x1 tl1 l1))
+               by (cbn; rewrite nth_error_map, Hj; reflexivity).
+             assert (Hguardj : guard V mbW (abs s) y1 x1 = true).
+             { unfold ConcRowSync.guard. cbn [done ConcDetailed.abs]. destruct Hg1 as [->|Hnd]; [reflexivity|].
+               apply orb_true_iff. right. apply Nat.leb_le. pose proof (p_done_le n s HI (y1 - 1)). lia. }
+             destruct (rowsync_no_conflict V v0 f mbW mbH HmbW n sched (abs s) i j y x tl l y1 x1 tl1 l1 Hrun Hne Habsw Hguard Habsj Hguardj)
+               as (_ & Hc1 & _ & Hc3).
+             split; [exact Hg1|]. rewrite !upd1_neq by lia. split; assumption.
+          -- rewrite upd1_neq by congruence. exact H0.
       + intros j wj y0 Hj Hr. cbn in Hj. unfold setw in Hj. cbn [d_next]. destruct (Nat.eq_dec i j) as [<-|Hne].
         * rewrite set_nth_eq in Hj by exact Hil. inversion Hj; subst wj. cbn in Hr. inversion Hr; subst y0.
           exact (p_rows_lt n s HI i _ y Hw eq_refl).
         * rewrite set_nth_neq in Hj by exact Hne. exact (p_rows_lt n s HI j wj y0 Hj Hr).
       + intros j k wj wk y0 Hj Hk Hrj Hrk. cbn in Hj, Hk. unfold setw in Hj, Hk.
-        assert (Hget : forall m wm, nth_error (set_nth (d_workers V s) i
-                   (DSig y x (snd (d_top V s x)) (f y x tl (snd (d_top V s x)) (if S x <? mbW then snd (d_top V s (S x)) else v0) l) QStore)) m = Some wm ->
+        assert (Hget : forall m wm, nth_error (set_nth (d_workers V s) i (DSig y x t0 (f y x tl t0 tr0 l) QStore)) m = Some wm ->
                  row_of wm = Some y0 -> exists wm0, nth_error (d_workers V s) m = Some wm0 /\ row_of wm0 = Some y0).
         { intros m wm Hm Hrm. destruct (Nat.eq_dec i m) as [<-|Hne].
-          - rewrite set_nth_eq in Hm by exact Hil. inversion Hm; subst wm. exists (DCompute y x tl l). auto.
+          - rewrite set_nth_eq in Hm by exact Hil. inversion Hm; subst wm. exists (DHold y x tl l t0 tr0). auto.
           - rewrite set_nth_neq in Hm by exact Hne. exists wm. auto. }
         destruct (Hget j wj Hj Hrj) as (wj0 & Hj0 & Hrj0). destruct (Hget k wk Hk Hrk) as (wk0 & Hk0 & Hrk0).
         exact (p_unique n s HI j k wj0 wk0 y0 Hj0 Hk0 Hrj0 Hrk0).
@@ -558,6 +575,30 @@ Section Proofs.
       apply orb_true_iff. right. apply Nat.leb_le. pose proof (p_done_le n s HI (y - 1)). lia. }
     destruct (rowsync_reads_serial V v0 f mbW mbH HmbW n sched1 (abs s) i y x tl l H1 Habsw Hguard) as (A & B & _).
     split; assumption.
+  Qed.
+
+  (** ... and the values a worker HOLDS between its read sub-step and its write sub-step are
+      still the serial ones when it writes: nobody overwrites the cells it read. *)
+  Theorem detailed_held_values_serial : forall n sched s i y x tl l t tr,
+    drun (dinit n) sched = Some s -> nth_error (d_workers V s) i = Some (DHold y x tl l t tr) ->
+    t = P V v0 f mbW y x /\ (S x < mbW -> tr = P V v0 f mbW y (S x)) /\
+    f y x tl t tr l = serial_out V v0 f mbW y x.
+  Proof.
+    intros n sched s i y x tl l t tr Hr Hw. pose proof (detailed_inv n sched s Hr) as HI.
+    destruct (p_proj n s HI) as (sched1 & H1).
+    assert (Habsw : nth_error (workers V (abs s)) i = Some (AtMB y x tl l))
+      by (cbn; rewrite nth_error_map, Hw; reflexivity).
+    pose proof (p_ok n s HI i _ Hw) as Hok. cbn [worker_ok] in Hok. destruct Hok as (Hg & Ht & Htr).
+    assert (Hguard : guard V mbW (abs s) y x = true).
+    { unfold ConcRowSync.guard. cbn [done ConcDetailed.abs]. destruct Hg as [->|Hnd]; [reflexivity|].
+      apply orb_true_iff. right. apply Nat.leb_le. pose proof (p_done_le n s HI (y - 1)). lia. }
+    destruct (rowsync_reads_serial V v0 f mbW mbH HmbW n sched1 (abs s) i y x tl l H1 Habsw Hguard) as (A & B & C & D).
+    change (top V (abs s)) with (d_top V s) in A, B.
+    assert (Et : t = P V v0 f mbW y x) by (rewrite Ht, A; reflexivity).
+    split; [exact Et|]. split.
+    - intros Hlt. rewrite Htr. replace (S x <? mbW) with true by (symmetry; apply Nat.ltb_lt; exact Hlt). rewrite (B Hlt). reflexivity.
+    - pose proof (step_value V v0 f mbW mbH HmbW n (abs s) i y x tl l (abs_inv n s HI) Habsw Hguard) as Hv.
+      change (top V (abs s)) with (d_top V s) in Hv. rewrite <- Ht, <- Htr in Hv. exact Hv.
   Qed.
 
 End Proofs.
